@@ -425,12 +425,22 @@ func runHedgedRetry(t harness.TB, st *harness.Stats, sc hedgedScen) {
 		var parked []*parkedInv
 		entered, returned := 0, 0
 		finished := false
+		var timeProblems []string
 		fn := func(exec failsafe.Execution[int]) (int, error) {
 			p := &parkedInv{gate: make(chan struct{})}
+			el0 := exec.ElapsedAttemptTime()
 			mu.Lock()
 			entered++
 			parked = append(parked, p)
 			mu.Unlock()
+			defer func() {
+				// C17: elapsed times are monotone, also while other branches of the execution retry
+				if el1 := exec.ElapsedAttemptTime(); el1 < el0 {
+					mu.Lock()
+					timeProblems = append(timeProblems, fmt.Sprintf("ElapsedAttemptTime went from %v on entry to %v before returning", el0, el1))
+					mu.Unlock()
+				}
+			}()
 			select {
 			case <-p.gate:
 			case <-exec.Canceled():
@@ -583,6 +593,16 @@ func runHedgedRetry(t harness.TB, st *harness.Stats, sc hedgedScen) {
 		}
 		if c["OnRetry"] > c["OnRetryScheduled"] {
 			bad("retry-without-schedule", "OnRetry %d > OnRetryScheduled %d", c["OnRetry"], c["OnRetryScheduled"])
+		}
+		if c["OnRetry"] > sc.MaxRetries {
+			// C02: the budget belongs to the execution, however many branches of it are inside the policy
+			bad("retries-over-budget", "OnRetry fired %d times with max retries %d", c["OnRetry"], sc.MaxRetries)
+		}
+		mu.Lock()
+		tp := append([]string(nil), timeProblems...)
+		mu.Unlock()
+		if len(tp) > 0 {
+			bad("attempt-elapsed-backwards", "%s", tp[0])
 		}
 		if c["OnHedge"] > sc.MaxHedges {
 			bad("too-many-hedges", "OnHedge fired %d times with max hedges %d", c["OnHedge"], sc.MaxHedges)
